@@ -120,6 +120,10 @@ reg = {
         # the catalog walk of compaction: relocated tables keep their entry count
         "relocate": {"overlay": "units/relocate.ovl", "canaries": ["canary_relocate"],
                      "helpers": ["clone", "set_header", "get_length", "relocate_tree", "to_string", "value", "key", "next", "range", "relocate", "get", "insert"]},
+        # the page-rebuild path of the mutable access guard
+        "guardmut": {"overlay": "units/guardmut.ovl", "canaries": ["canary_guardmut"],
+                     "helpers": ["as_ref", "write_child_page", "new", "memory", "memory_mut", "get_page_number", "key", "value", "num_pairs", "entry",
+                                 "free_if_uncommitted", "push", "build"]},
         "types_sep": {"overlay": "units/types_sep.ovl", "canaries": ["canary_types_sep"], "helpers": ["common_prefix_len"]},
         # the page-level checksum walk over an abstract page store
         "merkle": {"overlay": "units/merkle.ovl", "canaries": ["canary_merkle"],
@@ -254,10 +258,11 @@ P["C10"] = {
 P["C04"] = {
     "level": "proof",
     "verus": [{"unit": "search", "functions": ["LeafAccessor::position", "LeafAccessor::find_key", "LeafAccessor::num_pairs", "BranchAccessor::child_for_key", "BranchAccessor::num_keys",
-                                               "Direction::entry_in_range_core"]}],
+                                               "Direction::entry_in_range_core"]},
+              {"unit": "guardmut", "functions": ["AccessGuardMut::rebuild_leaf"]}],
     "kani": [K["C04-T1"], K["C04-L1f"], K["C04-L1v"], K["C04-L2"]],
-    "assumptions": ["S1 (search unit): K::compare is a function of the two byte strings and a total order (reflexive, antisymmetric, transitive) - that it is the value order of each built-in key type is property C15; the n-th key / child of a page is an uninterpreted function of the page (key_unchecked, key, child_page are assumed to return it; the byte layout is checked by the bounded Kani harnesses C04-L1/L2); the keys of a page are strictly increasing (precondition `sorted`, property C10)"],
-    "explanation": "Kernel = every lookup, insert and range scan reaches its entry through two binary searches, verified on their REAL loops for every page size and every total order: LeafAccessor::position reports a match only at an entry whose key equals the query and otherwise returns the insertion point (all keys before it smaller, all keys from it on larger), find_key finds a key exactly when the page holds it; BranchAccessor::child_for_key picks the child whose key interval contains the query (all separators before it smaller than the query, the separator at it greater or equal); the REAL bound test of the mutable range cursor (entry_in_range) yields an entry only while its key is on the inner side of the bound parked by the other end (Included / Excluded / Unbounded, both directions). Plus the leaf page as a sorted array (bounded model checking of the real writer, reader and binary search against the sequence of pairs handed to the builder) and the complete split/merge threshold arithmetic.",
+    "assumptions": ["G1 (guardmut unit): a leaf page is the sequence of pairs it holds (LeafAccessor reads it, LeafBuilder::build allocates a page holding exactly the pairs pushed), a branch page the log of child pointers written into it; the guard's root reference is held by value", "S1 (search unit): K::compare is a function of the two byte strings and a total order (reflexive, antisymmetric, transitive) - that it is the value order of each built-in key type is property C15; the n-th key / child of a page is an uninterpreted function of the page (key_unchecked, key, child_page are assumed to return it; the byte layout is checked by the bounded Kani harnesses C04-L1/L2); the keys of a page are strictly increasing (precondition `sorted`, property C10)"],
+    "explanation": "Kernel = every lookup, insert and range scan reaches its entry through two binary searches, verified on their REAL loops for every page size and every total order: LeafAccessor::position reports a match only at an entry whose key equals the query and otherwise returns the insertion point (all keys before it smaller, all keys from it on larger), find_key finds a key exactly when the page holds it; BranchAccessor::child_for_key picks the child whose key interval contains the query (all separators before it smaller than the query, the separator at it greater or equal); the REAL bound test of the mutable range cursor (entry_in_range) yields an entry only while its key is on the inner side of the bound parked by the other end (Included / Excluded / Unbounded, both directions). (G) the REAL page-rebuild path of AccessGuardMut::insert (get_mut / entry API, new value does not fit): the rebuilt leaf holds the old pairs with exactly this entry's value replaced, the pointer redirected to it is the parent's pointer at the position recorded for the parent (or the tree root), with a deferred checksum, and the old leaf is released. Plus the leaf page as a sorted array (bounded model checking of the real writer, reader and binary search against the sequence of pairs handed to the builder) and the complete split/merge threshold arithmetic.",
     "not_decided": "every tree operation of btree_mutator.rs: split, merge, rebalance, in-place leaf mutation (probed, too expensive), the cursor state machines around the verified bound test, multi-transaction histories",
 }
 P["C06"] = {
